@@ -243,7 +243,7 @@ def _expand(ops, allow_skipto, r):
         t = o.split()
         if t[0] in ("next", "prev"):
             out += [t[0]] * int(t[1] if len(t) > 1 else 1)
-        elif t[0] in ("movein", "moveassign", "selfmove", "moveout"):
+        elif t[0] in ("movein", "moveassign", "selfmove", "moveout", "moveassignout"):
             continue
         elif t[0] == "jump" and allow_skipto and r.random() < 0.4:
             out.append("skipto " + " ".join(t[1:]))
